@@ -88,9 +88,13 @@ func runStreamCase(o *Out, c stCase) {
 	var before []hubPush
 	var pending []hubPush // not yet handed to the hub, in list order
 	var pmu sync.Mutex
+	lateBoot := -1 // >= 0: the hub is bootstrapped only inside the handler of that delivery (or when the stream goes quiet)
 	for _, p := range c.pushes {
 		if p.when == "before" {
 			before = append(before, p)
+		} else if strings.HasPrefix(p.when, "boot:") {
+			before = append(before, p)
+			fmt.Sscanf(p.when, "boot:%d", &lateBoot)
 		} else {
 			pending = append(pending, p)
 		}
@@ -111,7 +115,16 @@ func runStreamCase(o *Out, c stCase) {
 		pending = keep
 		return out
 	}
-	if len(before) > 0 {
+	booted := false
+	var bootMu sync.Mutex
+	boot := func() {
+		bootMu.Lock()
+		defer bootMu.Unlock()
+		if booted || len(before) == 0 {
+			booted = true
+			return
+		}
+		booted = true
 		passDone := make(chan struct{})
 		go func() {
 			defer close(passDone)
@@ -127,7 +140,40 @@ func runStreamCase(o *Out, c stCase) {
 		ls.Push(before[len(before)-1].b.pb(), nil)
 		<-passDone
 	}
-	if !fh.IsReady() {
+	if lateBoot < 0 {
+		boot()
+	}
+	if lateBoot >= 0 && len(before) > 0 {
+		// pre-flight on a throw-away hub: a bootstrap that would not make the hub ready is not a case of this suite
+		lsf2 := bstream.NewTestSourceFactory()
+		obsf2 := bstream.NewTestSourceFactory()
+		fh2 := hub.NewForkableHub(lsf2.NewSource, bstream.SourceFromNumFactory(obsf2.SourceFromBlockNum), c.kept)
+		go fh2.Run()
+		ls2 := <-lsf2.Created
+		pd := make(chan struct{})
+		go func() {
+			defer close(pd)
+			select {
+			case obs := <-obsf2.Created:
+				for _, p := range before[:len(before)-1] {
+					obs.Push(p.b.pb(), nil)
+				}
+				obs.Shutdown(io.EOF)
+			case <-time.After(2 * time.Second):
+			}
+		}()
+		ls2.Push(before[len(before)-1].b.pb(), nil)
+		<-pd
+		ok := fh2.IsReady()
+		fh2.Shutdown(nil)
+		if !ok {
+			o.Impl("send hub-not-ready")
+			o.End()
+			fh.Shutdown(nil)
+			return
+		}
+	}
+	if lateBoot < 0 && !fh.IsReady() {
 		o.Impl("send hub-not-ready")
 		o.End()
 		fh.Shutdown(nil)
@@ -150,6 +196,9 @@ func runStreamCase(o *Out, c stCase) {
 		count++
 		last = time.Now()
 		mu.Unlock()
+		if lateBoot >= 0 && k == lateBoot {
+			boot() // the hub comes up while the stream is in the middle of its file phase
+		}
 		for _, b := range take(fmt.Sprintf("after:%d", k)) {
 			ls.Push(b.pb(), nil)
 		}
@@ -190,16 +239,40 @@ func runStreamCase(o *Out, c stCase) {
 	stuck := false
 	var runErr error
 	deadline := time.Now().Add(20 * time.Second)
+	// "quiet" means the stream has nothing more to deliver; on a loaded machine a slow stream looks quiet, so the
+	// threshold grows with the scheduling delay measured on this very loop (an 8 ms timer that fires late)
+	tick := time.Now()
+	quietAfter := 60 * time.Millisecond
 loop:
 	for {
+		tick = time.Now()
 		select {
 		case runErr = <-done:
 			break loop
 		case <-time.After(8 * time.Millisecond):
+			late := time.Since(tick) - 8*time.Millisecond
+			if want := 60*time.Millisecond + 25*late; want > quietAfter {
+				quietAfter = want
+				if quietAfter > 1500*time.Millisecond {
+					quietAfter = 1500 * time.Millisecond
+				}
+			} else if quietAfter > 60*time.Millisecond {
+				quietAfter -= (quietAfter - 60*time.Millisecond) / 8 // decay when the machine calms down
+			}
 			mu.Lock()
-			quiet := time.Since(last) > 60*time.Millisecond
+			quiet := time.Since(last) > quietAfter
 			mu.Unlock()
 			if !quiet {
+				continue
+			}
+			bootMu.Lock()
+			needBoot := !booted
+			bootMu.Unlock()
+			if needBoot {
+				boot()
+				mu.Lock()
+				last = time.Now()
+				mu.Unlock()
 				continue
 			}
 			if next := take(""); len(next) > 0 {
@@ -372,8 +445,15 @@ func suiteStream(o *Out, r *Rng, n int, tier string) {
 				o.Stat("stream.gap_between_files_and_hub", 1)
 			}
 		}
+		bootTag := "before"
+		bootAt := -1
+		if r.Intn(5) == 0 {
+			bootAt = r.Intn(8)
+			bootTag = fmt.Sprintf("boot:%d", bootAt) // the hub comes up during the stream's file phase
+			o.Stat("stream.hub_bootstrapped_during_the_stream", 1)
+		}
 		for _, b := range L[:i0+1] {
-			c.pushes = append(c.pushes, hubPush{b: b, when: "before"})
+			c.pushes = append(c.pushes, hubPush{b: b, when: bootTag})
 		}
 		c.bundles = layoutBundles(fileChain, 100)
 		missProb := []int{0, 0, 0, 30}[r.Intn(4)]
@@ -387,7 +467,8 @@ func suiteStream(o *Out, r *Rng, n int, tier string) {
 		for _, b := range L[i0+1:] {
 			w := "idle"
 			if r.Intn(2) == 0 {
-				w = fmt.Sprintf("after:%d", r.Intn(14))
+				// live blocks reach the hub only once it has been bootstrapped
+				w = fmt.Sprintf("after:%d", bootAt+1+r.Intn(14))
 			}
 			c.pushes = append(c.pushes, hubPush{b: b, when: w})
 		}
@@ -464,7 +545,7 @@ func suiteStream(o *Out, r *Rng, n int, tier string) {
 			c.cur = &cr
 			c.mode = "from"
 			o.Stat("stream.start.cursor_"+cr.step, 1)
-			if r.Intn(3) == 0 {
+			if r.Intn(2) == 0 {
 				c.mode = "through"
 				if r.Intn(4) != 0 { // prefer target cursors whose block the hub no longer retains (the files have to carry the stream past it)
 					var bc []curRec
